@@ -17,7 +17,9 @@ path replaces, relative path is appended and *interior empty segments are filter
 (`segments[1:-1] = filter(None, …)`), then the `.`/`..` stack walk that ignores `..` on an
 empty stack, a trailing `''` after a final `.`/`..`, `'/'.join(resolved) or '/'`, and
 `urlunsplit`'s leading `/` when a netloc is present.  `urljoin` is `client._urljoin`:
-resolve without fragments, then the reference's fragment, or else the base's.
+resolve without fragments, then the reference's fragment, or else the base's, put back with
+`urlparse` / `urlunparse` (schemes other than http / https are outside this model: the harness
+judges such `Location`s by the oracle alone).
 
 The agent: `follow` is `_handleResponse`/`_handleRedirect` driven by the list of responses
 the inner agent will answer with; it returns the requests issued to the inner agent after
@@ -231,6 +233,65 @@ def run (cfg : Config) (method : String) (uri : Uri) (headers : Option (List Hea
     (rs : List Resp) : List Req × Outcome :=
   let t := follow cfg (start method uri headers) rs 0
   ((start method uri headers).req :: t.1, t.2)
+
+/-! ### one agent object, several requests
+
+`RedirectAgent.__init__` stores the inner agent, the limit and the set of sensitive names; `request`,
+`_handleResponse`, `_handleRedirect` read them and write nothing: everything that changes from hop to hop
+travels in the callback arguments (`Hop`).  So the agent object is `Config`, and what the requests made
+through it have in common is only that.
+
+`Flight` is one request in flight against an inner agent that answers LATER: the hop whose answer is
+awaited, the responses the inner agent will still give to this chain, the number of the next one, the
+requests the inner agent has received for it so far, and how the caller's Deferred ended (if it has).
+`deliver cfg pool i` = the inner agent fires the Deferred of chain `i` with its next response;
+`schedule` = any sequence of such deliveries over the pool. -/
+
+structure Call where
+  method : String
+  uri : Uri
+  headers : Option (List Header)
+  resps : List Resp
+  deriving Repr, DecidableEq
+
+/-- the requests are independent of each other: each is `run` -/
+def runMany (cfg : Config) (calls : List Call) : List (List Req × Outcome) :=
+  calls.map fun c => run cfg c.method c.uri c.headers c.resps
+
+structure Flight where
+  hop : Hop
+  rest : List Resp
+  index : Nat
+  sent : List Req
+  done : Option Outcome
+  deriving Repr, DecidableEq
+
+/-- `agent.request(method, uri, headers)`: the caller's request goes to the inner agent -/
+def Call.take (c : Call) : Flight :=
+  { hop := start c.method c.uri c.headers, rest := c.resps, index := 0,
+    sent := [(start c.method c.uri c.headers).req], done := none }
+
+/-- the inner agent answers the outstanding request of this chain (nothing happens when the caller's
+    Deferred has fired already or the script is exhausted) -/
+def Flight.advance (cfg : Config) (f : Flight) : Flight :=
+  match f.done, f.rest with
+  | some _, _ => f
+  | none, [] => f
+  | none, r :: rs =>
+    match handleResponse cfg f.hop r f.index with
+    | .stop o => { f with rest := rs, done := some o }
+    | .next h' => { hop := h', rest := rs, index := f.index + 1, sent := f.sent ++ [h'.req], done := none }
+
+def deliver (cfg : Config) : List Flight → Nat → List Flight
+  | [], _ => []
+  | f :: fs, 0 => f.advance cfg :: fs
+  | f :: fs, i + 1 => f :: deliver cfg fs i
+
+def schedule (cfg : Config) (pool : List Flight) (sched : List Nat) : List Flight :=
+  sched.foldl (deliver cfg) pool
+
+/-- what the caller of a chain has seen once nothing more can be delivered to it -/
+def Flight.result (f : Flight) : List Req × Outcome := (f.sent, f.done.getD .pending)
 
 /-! ### rendering (`urlunparse`) -/
 
